@@ -17,6 +17,10 @@ package main
 //   wevents <id> [want=<n>]             -> wevents <id> <P:k:v@mod/prevkv,D:k:-@mod/k:v@mod,...|-> canceled=<0|1> compact=<n>
 //   wcancel <id>                        -> wcancel <id>
 //   put <key> <val> / delrange <key> <end> / compact <rev>  (the plain KV methods)
+//   inject succeeded=<0|1> hdr=<rev> kv=<k:v@rev|-> | inject err=<class> | inject clear | injected
+//   (cfg sched=1) gated <0|1> / start <cid> txn cmp=.. then=.. else=.. / step <cid>
+//     -> at <cid> <get|iter|commit>  |  done <cid> txn ok=...     real races: a transaction as a parked client
+//       scripted-backend mode: the next backend write call is answered with the scripted response (etcd_inject.go)
 
 import (
 	"context"
@@ -41,8 +45,10 @@ import (
 
 type etcdSuite struct {
 	opts  map[string]string
+	c     *ctl // scheduled mode (cfg sched=1): the gating storage wrapper's control block (wrap.go), else nil
 	inner storage.KvStorage
 	b     backend.Backend
+	ib    *injectBackend // what the RPCServer sees: s.b, or a scripted answer to the next write call (etcd_inject.go)
 	srv   *etcd.RPCServer
 	peers service.PeerService
 	wait  time.Duration
@@ -73,7 +79,13 @@ func newEtcdSuite(opts map[string]string) *etcdSuite {
 	if v, ok := opts["cache"]; ok {
 		cfg.WatchCacheSize = atoi(v)
 	}
-	s.b = backend.NewBackend(s.inner, cfg, getMetrics())
+	var kv storage.KvStorage = s.inner
+	if opts["sched"] == "1" {
+		// real races: etcd transactions run as parked clients (start / step), one storage call at a time
+		s.c = newCtl()
+		kv = &kvWrap{inner: s.inner, c: s.c}
+	}
+	s.b = backend.NewBackend(kv, cfg, getMetrics())
 	init := uint64(1000)
 	if v, ok := opts["init"]; ok {
 		init = atou(v)
@@ -82,7 +94,8 @@ func newEtcdSuite(opts map[string]string) *etcdSuite {
 	// the production wiring of pkg/server/server.go with an election stub that says "I am the leader"
 	le := &leader.Stub{ElectionInfo: leader.ElectionInfo{LeaderAddress: "127.0.0.1:0", IsLeader: opts["leader"] != "0"}}
 	s.peers = service.NewPeerService(le, getMetrics(), s.b, service.Config{})
-	s.srv = etcd.New(s.b, getMetrics(), s.peers)
+	s.ib = newInjectBackend(s.b)
+	s.srv = etcd.New(s.ib, getMetrics(), s.peers)
 	return s
 }
 
@@ -302,8 +315,12 @@ func respOpStr(r *etcdserverpb.ResponseOp) string {
 }
 
 func (s *etcdSuite) doTxn(opts map[string]string) string {
+	return s.doTxnCtx(context.Background(), opts)
+}
+
+func (s *etcdSuite) doTxnCtx(ctx context.Context, opts map[string]string) string {
 	req := parseTxn(opts)
-	resp, err := s.srv.Txn(context.Background(), req)
+	resp, err := s.srv.Txn(ctx, req)
 	if err != nil {
 		return "txn err " + classifyEtcd(err)
 	}
@@ -593,12 +610,85 @@ func (s *etcdSuite) do(t []string) string {
 			return "compact err " + classifyEtcd(err)
 		}
 		return fmt.Sprintf("compact hdr=%d", hdrRev(resp.Header))
+	case "gated":
+		if s.c == nil || len(pos) < 2 {
+			return "gated bad-op"
+		}
+		s.c.gated = pos[1] == "1"
+		return "gated " + pos[1]
+	case "start":
+		// start <cid> txn cmp=.. then=.. else=..: the transaction runs as a parked client: it stops at every
+		// storage call of its backend call (gates get / iter / commit of wrap.go) until `step <cid>` lets it go on
+		if s.c == nil || len(pos) < 3 || pos[2] != "txn" {
+			return "start bad-op"
+		}
+		cid := pos[1]
+		ch := make(chan string, 1)
+		s.c.mu.Lock()
+		s.c.clients[cid] = ch
+		s.c.mu.Unlock()
+		cctx := withCid(ctx, cid)
+		go func() {
+			line := s.doTxnCtx(cctx, opts)
+			s.c.mu.Lock()
+			delete(s.c.clients, cid)
+			s.c.mu.Unlock()
+			s.c.arrived <- arrival{cid: cid, done: true, line: line}
+		}()
+		return s.awaitClient(cid)
+	case "step":
+		if s.c == nil || len(pos) < 2 {
+			return "step bad-op"
+		}
+		cid := pos[1]
+		s.c.mu.Lock()
+		ch := s.c.clients[cid]
+		s.c.mu.Unlock()
+		if ch == nil {
+			return "step " + cid + " no-such-client"
+		}
+		d := "-"
+		if f, ok := opts["f"]; ok {
+			d = f
+		}
+		ch <- d
+		return s.awaitClient(cid)
+	case "inject":
+		return s.ib.doInject(pos, opts)
+	case "injected":
+		return s.ib.doInjected()
 	case "dump":
 		return "dump " + dumpAll(s.inner)
 	case "echo":
 		return strings.Join(t, " ")
 	}
 	return pos[0] + " bad-op"
+}
+
+// awaitClient waits for the next event (gate arrival or completion) of the parked client cid.
+func (s *etcdSuite) awaitClient(cid string) string {
+	timeout := time.After(30 * time.Second)
+	var stash []arrival
+	defer func() {
+		for _, a := range stash {
+			s.c.arrived <- a
+		}
+	}()
+	for {
+		select {
+		case a := <-s.c.arrived:
+			if a.cid != cid {
+				stash = append(stash, a)
+				continue
+			}
+			if a.done {
+				return "done " + cid + " " + a.line
+			}
+			return "at " + cid + " " + a.gate
+		case <-timeout:
+			return "stuck " + cid
+		}
+	}
 }
 
 func init() { register("etcd", func(o map[string]string) suite { return newEtcdSuite(o) }) }
